@@ -203,3 +203,36 @@ ax("mem-class-super", L.FA([v, c, d], z3.Implies(z3.And(kind(c) == K["Class"], k
                           [(mem(v, c), subclass(c, d))]))
 # class objects that occur as runtime values are plain classes (TypedDict classes as values are outside the value grammar)
 ax("wf-val-class", L.FA(v, z3.Implies(z3.And(wf_val(v), TY.is_class(v)), kind(v) == K["Class"]), [wf_val(v)]))
+
+
+# ---- collections.defaultdict(list | set) built locally by repo code (pure-update semantics; a missing key reads as the empty container)
+def _defaultdict_ctor(ip, a, kw, node):
+    if len(a) == 1 and isinstance(a[0], GlobalRef) and a[0].path in ("builtins.list", "builtins.set"):
+        return ZV(L.EMPTY_DICT, "DDict:" + a[0].path.split(".")[1])
+    raise Unsupported("defaultdict(%r)" % (a,))
+
+
+R.EXTERNALS["collections.defaultdict.__call__"] = R.ExtFn(_defaultdict_ctor)
+
+
+def _ddict_getitem(ip, r, a, kw, node):
+    k = as_v(a[0])
+    kind_ = r.tag.split(":")[1]
+    empty = L.EMPTY_SET if kind_ == "set" else L.EMPTY_SEQ
+    return ZV(z3.If(L.has(r.term, k), L.get(r.term, k), empty), "set" if kind_ == "set" else "seq")
+
+
+for _t in ("DDict:list", "DDict:set"):
+    R.METHODS[(_t, "__getitem__")] = _ddict_getitem
+    R.METHODS[(_t, "items")] = lambda ip, r, a, k, n: ZV(L.dict_items(r.term), "Seq[Pair[str,seq]]")
+    R.METHODS[(_t, "values")] = lambda ip, r, a, k, n: ZV(L.dict_values(r.term), "Seq[seq]")
+    R.METHODS[(_t, "keys")] = lambda ip, r, a, k, n: ZV(r.term, "Seq[str]")
+
+
+def _ty_call(ip, r, a, kw, node):
+    if r.term.eq(CLS["defaultdict"]):
+        return _defaultdict_ctor(ip, a, kw, node)
+    raise Unsupported("call of type object %s" % r.term)
+
+
+R.METHODS[("Ty", "__call__")] = _ty_call
